@@ -1,16 +1,23 @@
 #!/usr/bin/env python3
-"""Sensitivity run: apply each seeded change under seeded/<name>/ to /repo, run the checks of its
-property (and optionally others), undo the change, record which check caught it.
+"""Sensitivity run: for each seeded change under seeded/<name>/, run the checks of its property against
+pyasn1 with the change applied, and record which check caught it.
 
-usage: python3 tools_seeded.py [name ...] [--tier quick|thorough] [--all-props]
-Writes seeded/RESULTS.json and seeded/RESULTS.md.  /repo is restored (git checkout -- .) after every change,
-also on error/interrupt.  Nothing is ever committed to /repo.
+usage: python3 tools_seeded.py [name ...] [--tier quick|thorough] [--scratch] [--jobs N] [--also C03,C09]
+
+default mode : the patch is applied to /repo itself (git -C /repo apply), the checks run, and /repo is
+               restored straight afterwards (git checkout -- .), also on error/interrupt.
+--scratch    : the patch is applied to a throw-away worktree of /repo's HEAD under /tmp and the checks
+               import pyasn1 from there (PYTHONPATH); /repo is not touched, so this can run while other
+               checks use /repo.  The worktree is removed afterwards.
+Writes seeded/RESULTS.json and seeded/RESULTS.md.  Nothing is ever committed to /repo.
 """
 import json
 import os
 import re
+import shutil
 import subprocess
 import sys
+import tempfile
 import time
 
 HERE = os.path.dirname(os.path.abspath(__file__))
@@ -25,50 +32,82 @@ def repo_clean():
     return sh("git -C %s status --porcelain --untracked-files=no" % REPO).stdout.strip() == ""
 
 
-def run_check(prop, tier, only=None):
-    cmd = "cd %s && ./check %s --tier %s --no-evidence%s" % (HERE, prop, tier, (" --only '%s'" % only) if only else "")
+def run_check(prop, tier, only=None, tree=None, jobs=16):
+    env = dict(os.environ)
+    if tree:
+        env["PYTHONPATH"] = tree
+    cmd = "cd %s && ./check %s --tier %s --no-evidence --jobs %d%s" % (HERE, prop, tier, jobs, (" --only '%s'" % only) if only else "")
     t0 = time.time()
-    p = sh(cmd)
+    p = sh(cmd, env=env)
     out = p.stdout
     viol = re.findall(r"^VIOLATION property=(\S+) replay=(\S+)\n\s+obligation=(\S+) args=(\{.*?\}) :: (.*)$", out, re.M)
     summary = [l for l in out.splitlines() if l.startswith(prop + " tier=")]
     return {"exit": p.returncode, "violations": [{"obligation": v[2], "args": v[3][:300], "detail": v[4][:300]} for v in viol[:5]],
-            "n_violations": len(viol), "summary": summary[-1] if summary else out[-300:], "wall_s": round(time.time() - t0, 1)}
+            "n_violations": len(viol), "violated_obligations": sorted(set(v[2] for v in viol))[:12],
+            "summary": summary[-1] if summary else out[-300:], "wall_s": round(time.time() - t0, 1)}
 
 
 def main():
-    args = [a for a in sys.argv[1:] if not a.startswith("--")]
-    tier = "quick"
-    if "--tier" in sys.argv:
-        tier = sys.argv[sys.argv.index("--tier") + 1]
-        args = [a for a in args if a != tier]
-    names = args or sorted(d for d in os.listdir(os.path.join(HERE, "seeded")) if os.path.isdir(os.path.join(HERE, "seeded", d)))
+    argv = sys.argv[1:]
+    tier, jobs, also = "quick", 16, []
+    scratch = "--scratch" in argv
+    names = []
+    i = 0
+    while i < len(argv):
+        a = argv[i]
+        if a == "--tier":
+            tier = argv[i + 1]; i += 2; continue
+        if a == "--jobs":
+            jobs = int(argv[i + 1]); i += 2; continue
+        if a == "--also":
+            also = argv[i + 1].split(","); i += 2; continue
+        if not a.startswith("--"):
+            names.append(a)
+        i += 1
+    names = names or sorted(d for d in os.listdir(os.path.join(HERE, "seeded")) if os.path.isdir(os.path.join(HERE, "seeded", d)))
     respath = os.path.join(HERE, "seeded", "RESULTS.json")
-    results = json.load(open(respath)) if os.path.exists(respath) else {}
-    if not repo_clean():
+    if not scratch and not repo_clean():
         sys.exit("refusing to run: /repo has uncommitted changes")
     for name in names:
         d = os.path.join(HERE, "seeded", name)
         meta = json.load(open(os.path.join(d, "meta.json")))
         patch = os.path.join(d, "patch.diff")
-        props = [meta["property"]] + [p for p in meta.get("also_run", [])]
-        entry = {"property": meta["property"], "what": meta.get("what", ""), "tier": tier, "checks": {}}
+        props = [meta["property"]] + [p for p in meta.get("also_run", []) + also if p != meta["property"]]
+        entry = {"property": meta["property"], "what": meta.get("what", ""), "tier": tier, "checks": {},
+                 "mode": "scratch worktree" if scratch else "applied to /repo"}
+        tree = None
         try:
-            a = sh("git -C %s apply %s" % (REPO, patch))
+            if scratch:
+                tree = tempfile.mkdtemp(prefix="seedrun-", dir="/tmp")
+                os.rmdir(tree)
+                sh("git -C %s worktree add -q --detach %s HEAD" % (REPO, tree))
+                a = sh("git -C %s apply %s" % (tree, patch))
+            else:
+                a = sh("git -C %s apply %s" % (REPO, patch))
             if a.returncode != 0:
                 entry["error"] = "patch does not apply: " + a.stderr[-200:]
             else:
                 for p in props:
-                    entry["checks"][p] = run_check(p, tier, meta.get("only", {}).get(p))
+                    entry["checks"][p] = run_check(p, tier, meta.get("only", {}).get(p), tree=tree, jobs=jobs)
         finally:
-            sh("git -C %s checkout -- ." % REPO)
+            if scratch:
+                sh("git -C %s worktree remove --force %s" % (REPO, tree))
+                shutil.rmtree(tree, ignore_errors=True)
+            else:
+                sh("git -C %s checkout -- ." % REPO)
         entry["caught_by"] = sorted(p for p, r in entry["checks"].items() if r["exit"] == 1 and r["n_violations"])
+        results = json.load(open(respath)) if os.path.exists(respath) else {}
         results[name + "@" + tier] = entry
-        json.dump(results, open(respath, "w"), indent=1)
-        print(name, tier, "caught by", entry["caught_by"] or "NOTHING", {p: r["wall_s"] for p, r in entry["checks"].items()})
-    assert repo_clean()
-    # markdown table
-    lines = ["| seeded change | property | tier | caught by | first counterexample |", "|---|---|---|---|---|"]
+        json.dump(results, open(respath, "w"), indent=1, sort_keys=True)
+        print(name, tier, "caught by", entry["caught_by"] or "NOTHING", {p: r["wall_s"] for p, r in entry["checks"].items()}, flush=True)
+    if not scratch:
+        assert repo_clean()
+    write_md(respath)
+
+
+def write_md(respath):
+    results = json.load(open(respath))
+    lines = ["| seeded change | property | what it changes | tier | caught by | first counterexample |", "|---|---|---|---|---|---|"]
     for k in sorted(results):
         e = results[k]
         first = ""
@@ -76,8 +115,9 @@ def main():
             v = e["checks"][p]["violations"][0]
             first = "%s `%s` %s" % (p, v["obligation"], v["detail"][:110].replace("|", "/"))
             break
-        lines.append("| %s | %s | %s | %s | %s |" % (k.split("@")[0], e["property"], e["tier"], ", ".join(e["caught_by"]) or "**missed**", first))
-    open(os.path.join(HERE, "seeded", "RESULTS.md"), "w").write("\n".join(lines) + "\n")
+        lines.append("| %s | %s | %s | %s | %s | %s |" % (k.split("@")[0], e["property"], (e.get("what") or "")[:120].replace("|", "/"), e["tier"],
+                                                        ", ".join(e["caught_by"]) or "**missed**", first))
+    open(os.path.join(os.path.dirname(respath), "RESULTS.md"), "w").write("\n".join(lines) + "\n")
 
 
 if __name__ == "__main__":
